@@ -36,6 +36,87 @@ class _Env:
         self.levels = list(node.TypeWarningLevel)
         self.backends = list(vp.ValuePropBackend)
 
+    # ------------------------------------------------------------------ behavioural probes
+    def prepare_probes(self):
+        """Operands of the probes, built once (their construction must not depend on the settings)."""
+        import warnings
+
+        import numpy as np
+        from spox import Tensor, argument
+
+        with warnings.catch_warnings():
+            warnings.simplefilter("ignore")
+            self.p_known = argument(Tensor(np.float32, (2,)))
+            self.p_unknown_rank = argument(Tensor(np.float32))
+            try:
+                from spox._internal_op import unsafe_cast
+
+                self.p_untyped = unsafe_cast(self.p_known, None)  # a Var without a type
+            except Exception:  # noqa: BLE001
+                self.p_untyped = None
+            self.p_f32 = argument(Tensor(np.float32, ()))
+            self.p_f32b = argument(Tensor(np.float32, ()))
+            self.p_i64 = argument(Tensor(np.int64, ()))
+            saved = self.vp._VALUE_PROP_BACKEND
+            self.vp._VALUE_PROP_BACKEND = self.vp.ValuePropBackend.REFERENCE
+            try:
+                self.p_const = self.op.const(np.array(2.0, np.float32))
+            finally:
+                self.vp._VALUE_PROP_BACKEND = saved
+
+    def behave(self, nonce=None):
+        """What the three settings DO right now (not what the globals read):
+        [which constructions warn, what a constant computation evaluates to, how operators dispatch]
+        (+ with `nonce`: the same kind of computation on a constant first met at this point of the history)."""
+        import warnings
+
+        from spox import Tensor, argument
+        import numpy as np
+
+        def warns(f):
+            with warnings.catch_warnings(record=True) as w:
+                warnings.simplefilter("always")
+                try:
+                    f()
+                except Exception as e:  # noqa: BLE001
+                    return "!" + type(e).__name__
+            return str(min(len(w), 1))
+
+        lvl = "".join([
+            warns(lambda: self.op.abs(self.p_untyped)) if self.p_untyped is not None else "-",  # output type missing
+            warns(lambda: argument(Tensor(np.float32))),      # incomplete output, no inputs
+            warns(lambda: self.op.abs(self.p_unknown_rank)),  # incomplete output from an incomplete input
+        ])
+        with warnings.catch_warnings():
+            warnings.simplefilter("ignore")
+            try:
+                v = self.op.cast(self.p_const, to=str)  # '2.0' on the reference evaluator, '2' on onnxruntime
+                val = getattr(v, "_value", None)
+                backend = "no-value" if val is None else str(val.value.tolist())
+            except Exception as e:  # noqa: BLE001
+                backend = "!" + type(e).__name__
+
+            def disp(f):
+                try:
+                    r = f()
+                    return r.type.dtype.name if hasattr(r, "type") else type(r).__name__
+                except Exception as e:  # noqa: BLE001
+                    return type(e).__name__
+
+            dsp = "|".join([disp(lambda: self.p_f32 + self.p_f32b), disp(lambda: self.p_i64 + self.p_f32),
+                            disp(lambda: self.p_f32 + 2.5)])
+            out = [lvl, backend, dsp]
+            if nonce is not None:
+                try:
+                    n = 1000 + int(nonce)
+                    v = self.op.cast(self.op.const(np.array(float(n), np.float32)), to=str)
+                    val = getattr(v, "_value", None)
+                    # same alphabet as the main probe: '2.0' (reference) / '2' (onnxruntime) / 'no-value'
+                    out.append("no-value" if val is None else str(val.value.tolist()).replace(str(n), "2"))
+                except Exception as e:  # noqa: BLE001
+                    out.append("!" + type(e).__name__)
+        return out
+
     def read(self):
         d = self.Var._operator_dispatcher
         if isinstance(d, self.NI):
@@ -90,14 +171,24 @@ class _Env:
         raise _Boom("body raised")
 
 
-def run_real(env: _Env, blocks, init):
+def run_real(env: _Env, blocks, init, behave=False):
     """Run a history on the real managers. Returns (final, log, records).
 
     log      : snapshots exactly where the model takes them (entering a body; after a block exit)
     records  : per block (which, arg, pre, inside, post, raised) for the model-free oracle
     """
+    if behave:
+        # every behavioural history starts from the same past: the main constant computation has been
+        # evaluated under both evaluating backends, in this order (so that a verdict does not depend on
+        # which histories happened to run earlier in the process, and a replay file stands on its own)
+        for bk in (1, 2):
+            env.write([init[0], bk, 0])
+            env.behave()
     env.write(init)
     log, records = [], []
+    blog = []  # behavioural snapshots at the same points (and once before the history)
+    if behave:
+        blog.append(env.behave())
     shared = {}  # one decorator object per (manager, arg), re-used by nested/repeated blocks
     prebuilt = {}  # manager objects constructed before the history starts, entered later
 
@@ -113,11 +204,18 @@ def run_real(env: _Env, blocks, init):
         pre = env.read()
         rec = {"which": b["which"], "arg": b["arg"], "pre": pre, "inside": None, "post": None,
                "raises": b["raises"]}
+        if behave:
+            rec["bpre"] = env.behave()
+            env.nonce = getattr(env, "nonce", 0) + 1  # a constant never evaluated before in this process
+            rec["nonce"] = env.nonce
         records.append(rec)
 
         def body():
             rec["inside"] = env.read()
             log.append(env.read())
+            if behave:
+                rec["binside"] = env.behave(nonce=rec["nonce"])
+                blog.append(rec["binside"][:3])
             for ib in b["inner"]:
                 run_block(ib)
             if b["raises"]:
@@ -140,6 +238,10 @@ def run_real(env: _Env, blocks, init):
         finally:
             rec["post"] = env.read()
             log.append(env.read())
+            if behave:
+                # the constant first evaluated inside the block is evaluated again, byte for byte, after it
+                rec["bpost"] = env.behave(nonce=rec.get("nonce"))
+                blog.append(rec["bpost"][:3])
 
     for b in blocks:
         try:
@@ -147,6 +249,8 @@ def run_real(env: _Env, blocks, init):
         except BaseException:  # noqa: BLE001 - top level of a history catches, like the model's runTop
             pass
     final = env.read()
+    if behave:
+        return final, log, records, blog
     return final, log, records
 
 
@@ -163,6 +267,63 @@ def oracle(records):
         if r["inside"] is not None and r["inside"] != exp:
             bad.append((MANAGERS[r["which"]], "not-in-force-inside", r))
     return bad
+
+
+def behaviour_oracle(records, baseline):
+    """Model-free: the previously effective setting is back in force *behaviourally* after the block, and
+    inside the block the entered setting is what takes effect (baseline = behaviour under each value)."""
+    bad = []
+    for r in records:
+        if "bpre" not in r:
+            continue
+        for j in range(3):
+            if r.get("bpost") is not None and r["bpost"][j] != r["bpre"][j]:
+                bad.append((MANAGERS[j], "behaviour-not-restored", r,
+                            f"behaves {r['bpre'][j]!r} before the block and {r['bpost'][j]!r} after it"))
+        if r.get("bpost") is not None and len(r["bpost"]) > 3 and r["bpost"][3] != r["bpre"][1]:
+            bad.append((MANAGERS[1], "behaviour-not-restored", r,
+                        f"a computation first made inside the block evaluates to {r['bpost'][3]!r} when repeated after it; "
+                        f"the setting in force before the block gives {r['bpre'][1]!r}"))
+        j = r["which"]
+        if r.get("binside") is not None and baseline is not None and r["binside"][j] != baseline[j][r["arg"]]:
+            bad.append((MANAGERS[j], "behaviour-not-in-force-inside", r,
+                        f"inside the block it behaves {r['binside'][j]!r}; under the entered setting alone: {baseline[j][r['arg']]!r}"))
+    return bad
+
+
+def baselines(env: _Env, ck=None):
+    """Behaviour under each value of each setting, each taken in a fresh interpreter in which nothing else
+    was ever selected (so no state remembered from another value can colour it)."""
+    import json
+    import os
+    import subprocess
+
+    base = [[None] * N_ARGS[0], [None] * N_ARGS[1], [None] * (N_ARGS[2] + 1)]
+    code = (
+        "import sys, json, warnings\n"
+        "warnings.simplefilter('ignore')\n"
+        "from harness.props.c16 import _Env\n"
+        "j, k = int(sys.argv[1]), int(sys.argv[2])\n"
+        "env = _Env()\n"
+        "keep = None\n"
+        "if not (j == 2 and k == 0):\n"
+        "    keep = env.manager(j, k)  # stays referenced: a collected generator manager would run its finally\n"
+        "    keep.__enter__()\n"
+        "env.prepare_probes()\n"
+        "print(json.dumps(env.behave()[j]))\n"
+    )
+    e = dict(os.environ, PYTHONPATH=f"{core.REPO / 'src'}:{core.VERIF}")
+    jobs = [(j, k) for j in range(3) for k in range(len(base[j]))]
+    procs = [subprocess.Popen([core.PY, "-c", code, str(j), str(k)], stdout=subprocess.PIPE, stderr=subprocess.PIPE,
+                              text=True, env=e) for j, k in jobs]
+    for (j, k), pr in zip(jobs, procs):
+        out, err = pr.communicate(timeout=180)
+        try:
+            base[j][k] = json.loads(out.strip().splitlines()[-1])
+        except Exception:  # noqa: BLE001
+            if ck is not None:
+                ck.broken("correspondence", f"C16 baseline of {MANAGERS[j]}={k} not observable", (err or out)[-300:])
+    return base
 
 
 def forests(n):
@@ -291,6 +452,62 @@ def run(ck: core.Check):
                         f"case={strip(blocks)} init={init} model={m} real_final={final} real_log={log}",
                     )
     env.write(saved)
+
+    # ---------------------------------------------------------------- behaviour: what the settings DO, not what the globals read
+    bstats = {"histories": 0, "behaviour_snapshots": 0, "mismatches": 0}
+    try:
+        env.prepare_probes()
+        base = baselines(env, ck)
+        ck.cov["behaviour_baselines"] = {MANAGERS[j]: base[j] for j in range(3)}
+        for j in range(3):
+            if None not in base[j] and len(set(map(str, base[j]))) < len(base[j]):
+                # the probes must tell the values of a setting apart, or the behavioural tie says nothing
+                ck.broken("generator", f"C16 behavioural probes do not separate the values of {MANAGERS[j]}", str(base[j]))
+        fixed = []
+        for w_, n_ in ((0, N_ARGS[0]), (1, N_ARGS[1]), (2, N_ARGS[2] + 1)):
+            for a_ in range(1 if w_ == 2 else 0, n_):
+                for i_ in range(n_):
+                    if i_ != a_:
+                        init_ = [2, 1, 0]
+                        init_[w_] = i_
+                        for raises_ in (False, True):
+                            fixed.append(([{"which": w_, "arg": a_, "raises": raises_, "inner": [], "form": "with", "how": 1}], init_))
+        small = [(b, i) for b, i in zip(cases, inits) if size(b) <= 2][: ck.pick(50, 600)]
+        rnd = [(gen_random(rng, rng.randrange(2, 7)), [rng.randrange(4), rng.randrange(3), rng.randrange(5)])
+               for _ in range(ck.pick(25, 400))]
+        bcases = fixed + small + rnd
+        try:
+            bmodel = ck.driver().ask_many("C16", [{"init": i, "blocks": strip(b)} for b, i in bcases])
+        except Exception as e:  # noqa: BLE001
+            ck.broken("correspondence", "C16 driver", str(e))
+            bmodel = [None] * len(bcases)
+        for (blocks, init), m in zip(bcases, bmodel):
+            final, log, records, blog = run_real(env, blocks, init, behave=True)
+            bstats["histories"] += 1
+            bstats["behaviour_snapshots"] += len(blog)
+            ck.count(("behaviour", repr(init), repr(strip(blocks))))
+            for mgr, kind, rec, what in behaviour_oracle(records, base):
+                ck.failure(f"{mgr}:{kind}", f"{mgr}: {what} (block enters {rec['arg']}, globals before/after {rec['pre']}/{rec['post']})",
+                           {"init": init, "blocks": blocks, "behaviour": True})
+            if m is not None and "error" not in m:
+                want = [init] + m["log"]
+                if len(want) != len(blog):
+                    ck.broken("correspondence", "C16 behaviour snapshots", f"{len(blog)} real vs {len(want)} model snapshots for {strip(blocks)}")
+                    continue
+                for k, (trip, bh) in enumerate(zip(want, blog)):
+                    exp = [base[j][trip[j]] for j in range(3)]
+                    if exp != bh:
+                        bstats["mismatches"] += 1
+                        if bstats["mismatches"] <= 3:
+                            ck.broken("correspondence", "C16 effective behaviour vs the setting the model says is in force",
+                                      f"case={strip(blocks)} init={init} snapshot {k}: model settings {trip} => {exp}, real behaviour {bh}")
+                        break
+    except Exception as e:  # noqa: BLE001
+        ck.broken("correspondence", "C16 behavioural probes not observable", f"{type(e).__name__}: {e}")
+    finally:
+        env.write(saved)
+    ck.cov["behaviour"] = bstats
+
     ck.cov.update(
         {
             "correspondence_cases": len(cases),
@@ -316,9 +533,20 @@ def replay(ck: core.Check, doc) -> bool:
     env = _Env()
     saved = env.read()
     case = doc["case"]
-    _, _, records = run_real(env, case["blocks"], case["init"])
-    env.write(saved)
-    bad = oracle(records)
+    try:
+        if case.get("behaviour"):
+            env.prepare_probes()
+            base = baselines(env)
+            _, _, records, _ = run_real(env, case["blocks"], case["init"], behave=True)
+            bad = [(m, k, r) for m, k, r, w in behaviour_oracle(records, base)]
+            for m, k, r, w in behaviour_oracle(records, base):
+                print(f"{m}: {k}: {w}")
+            bad += oracle(records)
+        else:
+            _, _, records = run_real(env, case["blocks"], case["init"])
+            bad = oracle(records)
+    finally:
+        env.write(saved)
     for mgr, kind, rec in bad:
         print(f"{mgr}: {kind}: before {rec['pre']} inside {rec['inside']} after {rec['post']}")
     return bool(bad)
